@@ -192,10 +192,15 @@ def kh_replay(files, timeout=1800):
 
 
 def kh_record(module, seed, n_events, out, timeout=600):
+    """Returns None, or a description when the recorder process died on a signal inside the code under test
+    (an observation about the code, reported by the caller as a violation with the events recorded so far)."""
     p = subprocess.run(["timeout", str(timeout), KH, "record", module, str(seed), str(n_events), out],
                        stdout=subprocess.PIPE, stderr=subprocess.PIPE, text=True, preexec_fn=_limits)
+    if p.returncode < 0 or p.returncode in (132, 134, 135, 136, 137, 139):
+        return "the recorder process died on a signal (rc=%s) while driving the real code" % p.returncode
     if p.returncode != 0:
         raise ToolError("kh record %s failed rc=%s: %s" % (module, p.returncode, tail(p.stderr, 30)))
+    return None
 
 
 # ----------------------------------------------------------------------------- known findings
@@ -297,7 +302,19 @@ class Run:
         n_files = len(seeds)
         for k in range(n_files):
             out = os.path.join(WORK, "trace", "%s-%s-%d.ndjson" % (self.pid, module, k))
-            kh_record(record_module or module, seeds[k], n_events, out)
+            died = kh_record(record_module or module, seeds[k], n_events, out)
+            if died:
+                last = {}
+                try:
+                    ls = [l for l in open(out).readlines() if l.strip().endswith("}")]
+                    last = json.loads(ls[-1]) if ls else {}
+                except Exception:
+                    pass
+                self.add_violation({"kind": "trace", "module": record_module or module, "trace_module": trace_module,
+                                    "cfg": cfg, "seed": seeds[k], "n_events": n_events, "records": [last],
+                                    "detail": {"variant": "crash:record:" + (record_module or module), "monitor": died,
+                                               "rec": last}})
+                continue
             files.append((k, out))
 
         def one(x):
@@ -441,7 +458,7 @@ def known_matches(k, v):
 
 
 # ----------------------------------------------------------------------------- Miri
-def miri_replay(files, shards=14, timeout=2400):
+def miri_replay(files, shards=14, timeout=3000):
     """Replay vector / behaviour files under Miri (cargo +nightly miri run): any undefined behaviour in the code
     under test aborts the interpreter.  Returns (summaries, failures[(shard file, tail of output)])."""
     tdir = os.path.join(WORK, "target-miri")
